@@ -480,14 +480,14 @@ def run(ctx):
 
     # ------------------------------------------------------------------ C cases: (fa, fb, tzs, wf, kind)
     ccases = []
-    absf = gen_absolute(rng, names_ok, 1 if quick else 8, 3 if quick else len(names_ok))
+    absf = gen_absolute(rng, names_ok, 1 if quick else 5, 3 if quick else len(names_ok))
     for f in absf:
         tzs = rng.choice(TZ_C)
         if rng.random() < 0.5:
             ccases.append((f, None, tzs, True, "abs-a"))
         else:
             ccases.append((None, f, tzs, True, "abs-b"))
-    relf = gen_relative(rng, 2 if quick else 24)
+    relf = gen_relative(rng, 2 if quick else 16)
     anchor_pool = [f for f in absf if f[0] in ("dt", "date") and 1000 <= f[2] <= 8000]
     for f in relf:
         tzs = rng.choice(TZ_C)
